@@ -45,6 +45,7 @@ PROPS["C13"] = {
         H("k13_4_writer_ops", timeout=900, unwindset=[BITITER_NEXT_REC, WRITE_BIT_REC]),
         H("k13_4_writer_bytes", timeout=900, unwindset=[BITITER_NEXT_REC, WRITE_BIT_REC]),
         H("k13_4_collect_bits", timeout=900, unwindset=[BITITER_NEXT_REC, WRITE_BIT_REC]),
+        H("k13_4_write_bits_be_wide", timeout=900, unwind=8, unwindset=[BITITER_NEXT_REC, WRITE_BIT_REC, (r"write_bits_be", "*", 67)]),
         H("k13_5_nat_roundtrip_u16range", timeout=1500, mem_gb=12, unwind=5, unwindset=nat_rules(6, 17)),
         H("k13_5_nat_u16_result", timeout=1500, mem_gb=12, unwind=5, unwindset=nat_rules(6, 18)),
         H("k13_5_nat_usize_result", timeout=1500, mem_gb=12, unwind=5, unwindset=nat_rules(6, 17)),
@@ -143,10 +144,12 @@ PROPS["C10"] = {
     "harnesses": [
         H("k10_copy_bits", timeout=900),
         H("k10_right_shift_1", timeout=900, unwindset=valk_rules()),
-        H("k10_product_kernel", timeout=1200, mem_gb=12, unwindset=valk_rules()),
+        H("k10_product_kernel_3_5", timeout=1200, mem_gb=16, unwindset=valk_rules()),
+        H("k10_product_kernel_9_1", tiers=("thorough",), timeout=1200, mem_gb=16, unwindset=valk_rules()),
+        H("k10_product_kernel_0_8", tiers=("thorough",), timeout=1200, mem_gb=16, unwindset=valk_rules()),
     ] + [H("k10_acc_%s" % a, tiers=(("quick", "thorough") if a in QUICK_ACC else ("thorough",)), timeout=1800, mem_gb=16,
            unwind=8, unwindset=valk_rules()) for a in ACC] + [
-        H("k10_pdec_sum_b_y", timeout=1800, mem_gb=16, unwind=8, unwindset=valk_rules()),
+        H("k10_pdec_sum_b_y", timeout=1800, mem_gb=24, unwind=8, unwindset=valk_rules()),
         H("k10_pdec_prod_yy", tiers=("thorough",), timeout=1800, mem_gb=16, unwind=8, unwindset=valk_rules()),
         H("k10_pdec_unit", tiers=("thorough",), timeout=900, unwind=8, unwindset=valk_rules()),
     ],
